@@ -96,6 +96,9 @@ func checkC14(c *Ctx) {
 		{"css name", func(L string) bool {
 			return noBrace(L) && strings.TrimSpace(L) == L && L != "" && !strings.Contains(L, ",") && !strings.ContainsAny(L, "\n\r")
 		}, func(L string) (string, data.Map) { return "{css " + L + "}", nil }},
+		{"css name after a prefix expression", func(L string) bool {
+			return noBrace(L) && strings.TrimSpace(L) == L && L != "" && !strings.Contains(L, ",") && !strings.ContainsAny(L, "\n\r")
+		}, func(L string) (string, data.Map) { return "{css 'pre', " + L + "}", nil }},
 		{"msg text", func(L string) bool {
 			return noBrace(L) && strings.TrimSpace(L) == L && L != "" && !strings.ContainsAny(L, "\n\r\t") && !strings.Contains(L, "//") && !strings.Contains(L, "/*") && !strings.Contains(L, "  ")
 		}, func(L string) (string, data.Map) { return "{msg desc=\"d\"}" + L + "{/msg}", nil }},
@@ -185,6 +188,10 @@ func checkC14(c *Ctx) {
 			c.Observe(key, out)
 			if err != nil {
 				c.Violate("calling the template returns", "mismatch", "call:"+sig, cs, clipq(L), err.Error())
+			} else if o.name == "css name after a prefix expression" {
+				if out != "pre-"+L && isASCII(L) {
+					c.Violate("every string that originates in the template denotes exactly the original characters", "mismatch", "literal:"+sig, cs, clipq("pre-"+L), clipq(out))
+				}
 			} else if out != L && isASCII(L) {
 				c.Violate("every string that originates in the template denotes exactly the original characters", "mismatch", "literal:"+sig, cs, clipq(L), clipq(out))
 			} else if out != L {
